@@ -70,3 +70,21 @@ From KV Require Import StateGen StateBase StateImportProofs.
 Theorem C12_state_as_modelled : state_import = modelled_state_import.
 Proof. exact state_import_as_modelled. Qed.
 Print Assumptions C12_state_as_modelled.
+
+(* "exactly one error per malformed cell, with its line number; every other token as without the damage": for EVERY text
+   that imports, the tree holds the source grid (C02_tree_holds_the_source_grid), and in it a node is an ErrorToken
+   exactly when its cell is an ordinary cell (no header, spine operator or comment) that the importer of its spine's header
+   rejects - then it carries the cell text and the number of its non-blank line; together with
+   C12_errors_reported_once_with_line (the error list is the list of the ErrorToken nodes) this is the clause *)
+From KV Require Import GridTokensProofs.
+Theorem C12_error_iff_rejected_cell : forall bad d r id c, cell_rel bad d r id c ->
+  forall e l, n_tok (get_node d id) = Some (TError e l) <->
+    (e = c /\ l = r /\ startswith "**" c = false /\ mem_str c spine_operations = false /\ startswith "!" c = false /\
+     exists hid, n_header (get_node d id) = Some hid /\ import_cell bad (header_text d hid) c = RFail).
+Proof. exact error_iff_rejected. Qed.
+Print Assumptions C12_error_iff_rejected_cell.
+
+Theorem C12_tree_holds_the_source_grid : forall bad text d, loads bad text = IOk d ->
+  exists sts, d_stages d = [0] :: sts /\ rows_rel bad d 1 sts (filter nonempty_row (rows_of_text text)).
+Proof. exact loads_grid. Qed.
+Print Assumptions C12_tree_holds_the_source_grid.
